@@ -103,6 +103,11 @@ type vf19Event struct {
 	kind int
 	data []byte
 	err  error
+	// fin >= 0 on a chunk: the terminal event (vf19EOF / vf19RErr with finErr)
+	// is reported by the same Read call that hands out the last byte of data
+	// (n > 0 && err != nil, as io.Reader allows and obfs4Conn.Read does).
+	fin    int
+	finErr error
 }
 
 type vf19Terminal struct {
@@ -112,6 +117,7 @@ type vf19Terminal struct {
 	// snapshot at the moment the relay saw the event
 	pendingUnforwarded int  // bytes consumed from either side and not (yet) written to the other
 	dataBothWays       bool // both sides had produced data the relay had read
+	withData           int  // > 0: the Read that reported the event also returned this many bytes
 }
 
 var vf19ErrClosed = fmt.Errorf("vf19: use of closed scripted connection: %w", net.ErrClosed)
@@ -138,6 +144,8 @@ type vf19Conn struct {
 
 	avail    []vf19Event // arrived, not yet consumed by the relay
 	cur      []byte      // rest of a partially consumed chunk
+	curFin   int         // terminal event attached to cur (-1: none)
+	curErr   error
 	arrived  []byte      // all chunk bytes that have arrived
 	consumed []byte      // bytes Read has handed to the relay
 	ended    bool        // a terminal read event was consumed (sticky)
@@ -162,7 +170,7 @@ func vf19NewCase() *vf19Case {
 	c := &vf19Case{}
 	c.cond = sync.NewCond(&c.mu)
 	for i := range c.conns {
-		c.conns[i] = &vf19Conn{c: c, side: i, wfailAt: -1}
+		c.conns[i] = &vf19Conn{c: c, side: i, wfailAt: -1, curFin: -1}
 	}
 	return c
 }
@@ -209,7 +217,7 @@ func (x *vf19Conn) Read(p []byte) (int, error) {
 			x.avail = x.avail[1:]
 			switch e.kind {
 			case vf19Chunk:
-				x.cur = e.data
+				x.cur, x.curFin, x.curErr = e.data, e.fin, e.finErr
 			case vf19EOF:
 				x.ended, x.endErr = true, nil
 				c.terminal(x.side, vf19EOF, nil)
@@ -236,6 +244,17 @@ func (x *vf19Conn) Read(p []byte) (int, error) {
 			x.consumed = append(x.consumed, x.cur[:n]...)
 			x.cur = x.cur[n:]
 			c.bump()
+			if len(x.cur) == 0 && x.curFin >= 0 {
+				// the last bytes and the terminal event in one Read call
+				x.ended, x.endErr = true, x.curErr
+				c.terminal(x.side, x.curFin, x.curErr)
+				c.terms[len(c.terms)-1].withData = n
+				x.curFin = -1
+				if x.endErr == nil {
+					return n, io.EOF
+				}
+				return n, x.endErr
+			}
 			return n, nil
 		}
 		x.rwaiting++
@@ -375,6 +394,23 @@ func (c *vf19Case) start() {
 		err = copyLoop(c.conns[0], c.conns[1])
 	}()
 	<-ready
+}
+
+// tailParkedLocked: a copier was handed its side's last bytes together with the
+// terminal event and is parked in a gated Write with them.  The relay cannot
+// (and must not) tear down before that Write is allowed to complete, so no
+// closure claim is made at such a point.
+func (c *vf19Case) tailParkedLocked() bool {
+	for _, t := range c.terms {
+		if t.withData == 0 {
+			continue
+		}
+		y := c.conns[1-t.side]
+		if y.wwaiting > 0 && y.gated && y.credits == 0 && !y.closed {
+			return true
+		}
+	}
+	return false
 }
 
 // parkedLocked counts the calls that are parked with nothing that could wake
